@@ -396,7 +396,7 @@ func parentPath(p string) string {
 }
 
 func run(c *core.Ctx) {
-	c.Rule = "messages = all slot lists of length <=k over the slot alphabet of news.Article, test.TestAllTypes (thinned), pb2.Nests, pb2.Maps, Struct and TestAllExtensions (lists, maps, nested messages, unknown fields, extensions), plus Articles holding every list of <=2 Anys from {resolvable, nested resolvable, unresolvable URL, malformed body, empty}; for each, with Stable on and off: push/pop balanced and properly nested, the visited multiset equals an independent reference traversal exactly once each (Stable: also in the documented order), every step value equals applying the step to its parent value; then Break and Terminate are injected at EVERY push index and EVERY pop index: still balanced, nothing visited twice, Terminate => no further push, Break at x => no descendant of x visited and everything outside the subtree of x's parent still visited exactly once. A state is (message, option, injection point)"
+	c.Rule = "messages = all slot lists of length <=k over the slot alphabet of news.Article, test.TestAllTypes (thinned), pb2.Nests, pb2.Maps, Struct and TestAllExtensions (lists, maps, nested messages, unknown fields, extensions), plus Articles holding every list of <=2 Anys from {resolvable, nested resolvable, resolvable with a body lacking required fields (empty and nested), unresolvable URL, malformed body, empty}; for each, with Stable on and off: push/pop balanced and properly nested, the visited multiset equals an independent reference traversal exactly once each (Stable: also in the documented order), every step value equals applying the step to its parent value; then Break and Terminate are injected at EVERY push index and EVERY pop index: still balanced, nothing visited twice, Terminate => no further push, Break at x => no descendant of x visited and everything outside the subtree of x's parent still visited exactly once. A state is (message, option, injection point)"
 	c.Exhaustive = true
 	var states, trans atomic.Int64
 	type plan struct {
@@ -456,6 +456,9 @@ func run(c *core.Ctx) {
 	kv.Mutable(kv.Descriptor().Fields().ByName("data")).Map().Set(protoreflect.ValueOfString("k").MapKey(), protoreflect.ValueOfString("v"))
 	kvAny, _ := anypb.New(kv.Interface())
 	anys := []*anypb.Any{binAny, kvAny, inner, nestedAny,
+		// resolvable bodies that lack required fields (a partial body is still a body)
+		{TypeUrl: "type.googleapis.com/goproto.proto.test.TestRequired"},
+		{TypeUrl: "type.googleapis.com/goproto.proto.test.TestRequiredForeign", Value: []byte{0x0a, 0x00, 0x12, 0x02, 0x08, 0x01}},
 		{TypeUrl: "type.googleapis.com/no.such.Type", Value: []byte{8, 1}},
 		{TypeUrl: "type.googleapis.com/google.golang.org.BinaryAttachment", Value: []byte{0x0a, 0x05, 1}},
 		{},
